@@ -372,10 +372,15 @@ func (s *Service) retrieveExistingAndAssignKeys(
 			if idx < 0 {
 				continue
 			}
-			(*channels)[idx] = e
-			if incCounterBy != 0 {
+			// One key fewer is needed only when a slot that was going to be created is
+			// replaced. Several stored channels may carry the same name (names are unique
+			// only with name validation on) and land on the same slot: counting each of
+			// them would advance the counter by less than the number of keys handed out
+			// below, and the last key would be handed out again by the next create.
+			if (*channels)[idx].LocalKey == 0 && incCounterBy != 0 {
 				incCounterBy--
 			}
+			(*channels)[idx] = e
 		}
 	}
 	nextCounterValue, err := counter.add(ctx, incCounterBy)
